@@ -2,6 +2,7 @@
 From Coq Require Import Ascii String List Bool.
 Import ListNotations.
 From AM Require Import Lib.Bytes Model.Syslog Proofs.SyslogLemmas Model.SshdProc Model.SyslogIngest Proofs.SyslogIngestLemmas.
+From AM Require Import Lib.GoStrings Gen.PureFuncs Proofs.PureFuncsTie.
 Open Scope list_scope.
 
 (* For every pid token without space, every padding n >= 0 and every message that does not
@@ -38,3 +39,20 @@ Example C07_example :
   = r_writes (process c (s2l "4242") (s2l "Failed password for a  b from 1.2.3.4 port 22 ssh2") true true)
   /\ length (r_writes (process c (s2l "4242") (s2l "Failed password for a  b from 1.2.3.4 port 22 ssh2") true true)) = 1.
 Proof. vm_compute. split; reflexivity. Qed.
+
+(* ---------- the framing model is the framing code ----------
+   Gen/PureFuncs.v is REGENERATED on every run by translating the Go bodies of
+   SyslogIngester.ParseSyslogMessage and of the argument preparation in SyslogIngester.Process into
+   Gallina over executable models of the strings package (Lib/GoStrings.v: Split, Join, TrimLeft,
+   TrimSuffix, ...; None = the operation panics).  The hand-written [parse] / [process_line] of
+   Model/Syslog.v, about which C07_sshd_framing is proved, ARE those translations, for every line; in
+   particular the translated code never panics. *)
+Theorem C07_parse_from_source : forall e,
+  option_map entry_pair (gen_parse_syslog_message e) = Some (Syslog.parse e).
+Proof. exact parse_syslog_from_source_pair. Qed.
+Print Assumptions C07_parse_from_source.
+
+Theorem C07_process_line_from_source : forall line,
+  option_map entry_pair (gen_process_line line) = Some (process_line line).
+Proof. exact process_line_from_source. Qed.
+Print Assumptions C07_process_line_from_source.
